@@ -19,7 +19,9 @@ pub mod c11;
 pub mod c12;
 pub mod c13;
 pub mod c14;
+pub mod c16;
 pub mod c19;
+pub mod c20;
 
 pub type PropList = Vec<(Box<dyn PropDyn>, u32, u32)>;
 
@@ -117,10 +119,22 @@ pub fn all() -> Vec<Check> {
             sweeps: None,
         },
         Check {
+            id: "C16",
+            props: c16::props,
+            describe: c16::describe,
+            sweeps: None,
+        },
+        Check {
         id: "C19",
         props: c19::props,
         describe: c19::describe,
         sweeps: None,
     },
+        Check {
+            id: "C20",
+            props: c20::props,
+            describe: c20::describe,
+            sweeps: None,
+        },
     ]
 }
